@@ -13,7 +13,7 @@
 //   incx, inc2x, avoidx, avoid2x, permx  (diagnostic, printed only when different) the same live solver
 //            after solve() was called again until the positions stopped changing
 // Per variant X: pos.X (finalPosition, hex floats), act.X / uns.X (Constraint::active /
-// ::unsatisfiable as 0/1 strings, original constraint order), exc.X (none|unsatisfied|cstr|other).
+// ::unsatisfiable as 0/1 strings, original constraint order), exc.X (none|unsatisfied|cstr|other|abort <how>).
 #include "common.h"
 #include "libvpsc/solve_VPSC.h"
 #include "libvpsc/variable.h"
@@ -22,11 +22,17 @@
 #include "libavoid/vpsc.h"
 #include <string>
 #include <vector>
+#include <csignal>
+#include <csetjmp>
+#if defined(__SANITIZE_ADDRESS__)
+#include <sanitizer/lsan_interface.h>
+#endif
 
 struct Con { int l, r; double gap; bool eq; };
 struct Problem {
     std::vector<double> d, w, s, d2;
     std::vector<Con> cons;
+    std::vector<int> vperm, cperm;   // optional explicit permutations (stdin mode), else random
     bool allowStatic;     // inequality-only and acyclic (l before r in a topological order)
     const char *tag;
 };
@@ -42,6 +48,44 @@ static void printResult(const char *name, const Result &r) {
     for (double p : r.pos) printf(" %s", vh::hx(p).c_str());
     printf("\nact.%s %s\nuns.%s %s\n", name, r.act.empty() ? "-" : r.act.c_str(), name,
            r.uns.empty() ? "-" : r.uns.c_str());
+    fflush(stdout);      // an abort inside the next variant must not swallow this one
+}
+
+// Run one variant so that an abort inside it (failed COLA_ASSERT in the repo's standard
+// assert-enabled configuration) does not end the whole case stream: SIGABRT is caught and control
+// jumps back here; the parent then records `exc.<name> abort signal-6`. The solver objects of the
+// aborted variant are abandoned, so leak checking is disabled for allocations made inside.
+// Used for the static solver on the random classes, where such aborts occur on the unchanged
+// library; everywhere else a crash stays a CRASH verdict of the framework.
+static sigjmp_buf g_abortJmp;
+static volatile sig_atomic_t g_abortArmed = 0;
+static void onAbort(int) { if (g_abortArmed) { g_abortArmed = 0; siglongjmp(g_abortJmp, 1); } }
+template <class F> static void isolated(const char *name, bool isolate, F f) {
+    if (!isolate) { f(); return; }
+    struct sigaction sa, old;
+    memset(&sa, 0, sizeof sa);
+    sa.sa_handler = onAbort;
+    sa.sa_flags = SA_NODEFER;
+    sigaction(SIGABRT, &sa, &old);
+    fflush(stdout);
+    if (sigsetjmp(g_abortJmp, 1) == 0) {
+        g_abortArmed = 1;
+#if defined(__SANITIZE_ADDRESS__)
+        __lsan_disable();
+#endif
+        f();
+#if defined(__SANITIZE_ADDRESS__)
+        __lsan_enable();
+#endif
+        g_abortArmed = 0;
+    } else {
+#if defined(__SANITIZE_ADDRESS__)
+        __lsan_enable();
+#endif
+        printf("exc.%s abort signal-6\n", name);
+        fflush(stdout);
+    }
+    sigaction(SIGABRT, &old, nullptr);
 }
 
 // A live solver instance over library types V (variable), C (constraint), S (solver).
@@ -133,6 +177,8 @@ static void emit(long k, const Problem &P, vh::Rng &r) {
     for (size_t i = 0; i < n; ++i) vp[i] = (int) i;
     for (size_t i = 0; i < m; ++i) cp[i] = (int) i;
     r.shuffle(vp); r.shuffle(cp);
+    if (P.vperm.size() == n) vp = P.vperm;
+    if (P.cperm.size() == m) cp = P.cperm;
     printf("vperm"); for (int x : vp) printf(" %d", x); printf("\n");
     printf("cperm"); for (int x : cp) printf(" %d", x); printf("\n");
     printf("static %d\n", (int) P.allowStatic);
@@ -148,10 +194,11 @@ static void emit(long k, const Problem &P, vh::Rng &r) {
         Result r1 = b.solve<vpsc::UnsatisfiedConstraint>();
         if (b.solveToFixpoint<vpsc::UnsatisfiedConstraint>(r1, x)) printResult("incx", x);
     }
-    if (P.allowStatic) {
+    bool iso = std::string(P.tag) != "tiny-exh";
+    if (P.allowStatic) isolated("static", iso, [&]() {
         LiveStatic a; a.build(P.d, P.w, P.s, P.cons);
         printResult("static", a.solve<vpsc::UnsatisfiedConstraint>());
-    }
+    });
     {
         LiveAvoid a; a.build(P.d, P.w, P.s, P.cons);
         printResult("avoid", a.solve<Avoid::UnsatisfiedConstraint>());
@@ -168,7 +215,9 @@ static void emit(long k, const Problem &P, vh::Rng &r) {
         printResult("perm", runPermuted<LiveInc, vpsc::UnsatisfiedConstraint>(P, vp, cp, &x, &changed));
         if (changed) printResult("permx", x);
     }
-    if (P.allowStatic) printResult("sperm", runPermuted<LiveStatic, vpsc::UnsatisfiedConstraint>(P, vp, cp));
+    if (P.allowStatic) isolated("sperm", iso, [&]() {
+        printResult("sperm", runPermuted<LiveStatic, vpsc::UnsatisfiedConstraint>(P, vp, cp));
+    });
     vh::endCase();
 }
 
@@ -321,6 +370,8 @@ static Problem readProblem() {
             P.cons.push_back(c);
         }
         else if (key == "static" && !v.empty() && v[0] == 0) P.allowStatic = false;
+        else if (key == "vperm") { for (double x : v) P.vperm.push_back((int) x); }
+        else if (key == "cperm") { for (double x : v) P.cperm.push_back((int) x); }
     }
     size_t n = P.d.size();
     {   // acyclicity (Kahn); constraints with out-of-range indices are dropped
@@ -340,6 +391,33 @@ static Problem readProblem() {
     return P;
 }
 
+// ------------------------------------------------------------------ fixed witnesses (always run first)
+// Shrunk inputs on which the unchanged library returned a non-optimal placement when this check was
+// written (see the C02 report); they stay in the stream as regression markers.
+static const int NWITNESS = 4;
+static Problem witness(int i) {
+    Problem P; P.tag = "witness"; P.allowStatic = true;
+    auto con = [&](int l, int r, double g) { Con c; c.l = l; c.r = r; c.gap = g; c.eq = false; P.cons.push_back(c); };
+    if (i == 0) {          // IncSolver::solve stops after a cost-neutral split/re-merge pass (fresh solve)
+        P.d = {0, -416, 0, -848, -207, 181}; P.w = {1, 1, 1, 1, 1, 7}; P.s = {1, 1, 1, 1, 1, 1};
+        con(0, 5, 3055); con(2, 4, 995); con(0, 4, 2745.5); con(3, 5, 1974); con(3, 4, 1664.5); con(1, 3, 0);
+        P.d2 = P.d;
+    } else if (i == 1) {   // static Solver::refine: period-2 split/merge cycle until maxtries runs out (scaled)
+        P.d = {0, 0, 1, 1, -3}; P.w = {1, 1, 1, 1, 1}; P.s = {1, 2, 3, 0.5, 1};
+        con(3, 0, 4); con(0, 1, 8); con(4, 1, 14); con(3, 2, 7.5); con(4, 2, 10); con(0, 4, -7);
+        P.d2 = P.d;
+    } else if (i == 2) {   // same stop rule on a re-solve after desired positions moved
+        P.d = {-5, 0, 15, 0}; P.w = {1, 1.0 / 1024, 1, 1.0 / 1024}; P.s = {1, 1, 1, 1};
+        con(0, 1, 21.5); con(0, 3, 61.5); con(2, 1, 4); con(2, 3, 44);
+        P.d2 = {0, 0, 0, 0};
+    } else {               // absolute LAGRANGIAN_TOLERANCE: lm = -2^-14 > -1e-4 is never split (weights 1/1024)
+        P.d = {1, 0}; P.w = {1.0 / 1024, 1.0 / 1024}; P.s = {1, 1};
+        con(0, 1, 0);
+        P.d2 = {0, 1.0 / 16};
+    }
+    return P;
+}
+
 int main(int argc, char **argv) {
     vh::Args a = vh::parseArgs(argc, argv);
     if (a.mode == "stdin") {
@@ -349,13 +427,18 @@ int main(int argc, char **argv) {
     }
     bool thorough = a.tier == "thorough";
     long k = 0;
+    for (int i = 0; i < NWITNESS; ++i, ++k) {
+        if (!a.want(k)) continue;
+        vh::Rng r = vh::caseRng(a.seed, k);
+        emit(k, witness(i), r);
+    }
     long nexh = exhCount(thorough);
     for (long e = 0; e < nexh; ++e, ++k) {
         if (!a.want(k)) continue;
         vh::Rng r = vh::caseRng(a.seed, k);
         emit(k, exhDecode(e, thorough), r);
     }
-    long nrand = (thorough ? 6000 : 1500) * a.scale;
+    long nrand = (thorough ? 12000 : 4000) * a.scale;
     if (a.n >= 0) nrand = a.n;
     for (long c = 0; c < nrand; ++c, ++k) {
         if (!a.want(k)) continue;
